@@ -8,10 +8,15 @@ import MM.Model.C22
     reset <ctrl> <decl>       -> ok
         ctrl: `p` (net.Pipe: no TCP peer address) | `t1`,`t2`,`t3` (TCP from 127.0.0.k)
         decl: what the request declares — `u` 0.0.0.0:0 | `u6` [::]:0 | `d` a domain name |
-              `<k>` sender k's address | `<k>x` sender k's IP with another port |
+              `<k>` sender k's address | `<k>x` sender k's IP with another port | `<k>z` sender k's IP with port 0 |
               `m<k>` sender k's address in IPv4-mapped IPv6 form
     send <k> <v|i>            -> relayed | dropped      (v: valid SOCKS5 UDP header, i: invalid)
     reply                     -> to <k> | none          (where WriteToClient delivers)
+    hold                      -> ok                     the mesh-side relay call stalls from now on
+    send <k> <v|i> (held)     -> queued
+    release                   -> relayed <k>.<n>,..|-   what was relayed since `hold`, in order: <k>.<n> = destination
+                                                        and payload exactly as sender k's n-th datagram of the case, x = bytes nobody sent
+    any op may answer `timeout <what>` when the harness's wait for the relay machinery hits its deadline
   senders: 1,2,3 at 127.0.0.1/2/3; 4 = a second socket at 127.0.0.1
 -/
 namespace MM.Engine.C22
@@ -36,6 +41,7 @@ def parseDecl (s : String) : Option (Option Bytes × Nat) :=
   else match s.toList with
     | [c] => if '1' ≤ c ∧ c ≤ '4' then let k := c.toNat - 48; some (some (senderIP k), 4000 + k) else none
     | [c, 'x'] => if '1' ≤ c ∧ c ≤ '4' then some (some (senderIP (c.toNat - 48)), 9) else none
+    | [c, 'z'] => if '1' ≤ c ∧ c ≤ '4' then some (some (senderIP (c.toNat - 48)), 0) else none
     | ['m', c] => if '1' ≤ c ∧ c ≤ '4' then let k := c.toNat - 48; some (some (mapped (senderIP k)), 4000 + k) else none
     | _ => none
 
@@ -44,23 +50,42 @@ def parseSender (s : String) : Option Nat :=
   | [c] => if '1' ≤ c ∧ c ≤ '4' then some (c.toNat - 48) else none
   | _ => none
 
-def step (st : St) (line : String) : St × String :=
+/-- Engine state: the association, the number of datagrams sent so far in the case, and — while the
+    back-end is held — the datagrams waiting to be processed (sender, valid, number). -/
+structure ESt where
+  st : St := initSt none none 0
+  seq : Nat := 0
+  held : Bool := false
+  pending : List (Nat × Bool × Nat) := []
+
+def step (e : ESt) (line : String) : ESt × String :=
   match tokens line with
   | ["reset", c, d] =>
     match parseCtrl c, parseDecl d with
-    | some ctrl, some (ip, port) => (initSt ctrl ip port, "ok")
-    | _, _ => (st, "bad-op")
+    | some ctrl, some (ip, port) => ({ st := initSt ctrl ip port }, "ok")
+    | _, _ => (e, "bad-op")
   | ["send", k, v] =>
     match parseSender k with
     | some k =>
-      let r := recv st (sender k) (v = "v")
-      (r.1, if r.2 then "relayed" else "dropped")
-    | none => (st, "bad-op")
+      let n := e.seq + 1
+      if e.held then ({ e with seq := n, pending := e.pending ++ [(k, decide (v = "v"), n)] }, "queued")
+      else
+        let r := recv e.st (sender k) (v = "v")
+        ({ e with st := r.1, seq := n }, if r.2 then "relayed" else "dropped")
+    | none => (e, "bad-op")
   | ["reply"] =>
-    (st, match replyDest st with
+    (e, match replyDest e.st with
       | none => "none"
       | some a => s!"to {a.port - 4000}")
-  | _ => (st, "bad-op")
+  | ["hold"] => ({ e with held := true }, "ok")
+  | ["release"] =>
+    -- the datagrams that arrived meanwhile are processed one by one, in arrival order
+    let (st', out) := e.pending.foldl (fun (acc : St × List String) d =>
+      let r := recv acc.1 (sender d.1) d.2.1
+      (r.1, if r.2 then acc.2 ++ [s!"{d.1}.{d.2.2}"] else acc.2)) (e.st, [])
+    ({ e with st := st', held := false, pending := [] },
+      "relayed " ++ (if out.isEmpty then "-" else ",".intercalate out))
+  | _ => (e, "bad-op")
 
 /-! ### spec: C22 on the implementation's own answers.  The owner is computed from the `reset`
     line alone (control peer, else declared address); with neither, the harness's client is
@@ -76,7 +101,30 @@ def specStep (s : SpecSt) (l : String) : SpecSt × String :=
   | [op, out0] =>
     let out := out0.trimAscii.toString
     if out.startsWith "panic" || out.startsWith "crash" then (s, "fail crashed")
+    else if out.startsWith "timeout" then (s, "fail harness-timeout")
     else match tokens op with
+    | ["hold"] => (s, "ok")
+    | ["release"] =>
+      match tokens out, s.owner with
+      | ["relayed", lst], some o =>
+        let entries := if lst = "-" then [] else lst.splitOn ","
+        -- every relayed (destination, payload) must be one the OWNER sent, each once, in order
+        let verdict := entries.foldl (fun (acc : Option String × Nat) en =>
+          match acc.1 with
+          | some _ => acc
+          | none =>
+            match en.splitOn "." with
+            | [k, n] =>
+              match parseSender k, n.toNat? with
+              | some k, some n =>
+                if !ipEqual (senderIP k) o then
+                  (some (if s.ownerless then "fail relay-stranger-ownerless" else "fail relayed-foreign-bytes"), n)
+                else if n ≤ acc.2 then (some "fail relay-order", n)
+                else (none, n)
+              | _, _ => (some "fail unparsable-output", 0)
+            | _ => (some "fail relayed-foreign-bytes", 0)) (none, 0)
+        (s, verdict.1.getD "ok")
+      | _, _ => (s, "fail unparsable-output")
     | ["reset", c, d] =>
       match parseCtrl c, parseDecl d with
       | some ctrl, some (ip, port) =>
@@ -90,6 +138,7 @@ def specStep (s : SpecSt) (l : String) : SpecSt × String :=
       | some k, some o =>
         if out = "relayed" ∧ !ipEqual (senderIP k) o then
           (s, if s.ownerless then "fail relay-stranger-ownerless" else "fail relay-stranger")
+        else if out.startsWith "relayed-" then (s, "fail relayed-foreign-bytes")
         else (s, "ok")
       | _, _ => (s, "fail unparsable-op")
     | ["reply"] =>
@@ -109,6 +158,6 @@ def specStep (s : SpecSt) (l : String) : SpecSt × String :=
 def main (args : List String) : IO Unit :=
   match args with
   | ["spec"] => runLines ({} : SpecSt) specStep
-  | _ => runLines (initSt none none 0) step
+  | _ => runLines ({} : ESt) step
 
 end MM.Engine.C22
